@@ -83,10 +83,12 @@ class TeX(object):
             chr: self.castString,
             'char': self.castString,
             'cs': self.castControlSequence,
-            'label': self.castLabel,
-            'id': self.castLabel,
-            'idref': self.castRef,
-            'ref': self.castRef,
+            # Label names are plain characters, also in math mode
+            # (\label{eq:a_b} inside an equation)
+            'label': (self.castLabel, {'_':12,'^':12}),
+            'id': (self.castLabel, {'_':12,'^':12}),
+            'idref': (self.castRef, {'_':12,'^':12}),
+            'ref': (self.castRef, {'_':12,'^':12}),
             'nox': lambda x,**y: x,
             'list': self.castList,
             list: self.castList,
